@@ -348,9 +348,9 @@ Proof.
   destruct (hd_pick ch) as [c ch0].
   destruct (sb_send (set_sess y s se) s _ c) as [[y2 e2] rc2] eqn:Es.
   pose proof (sb_send_WF _ _ _ _ _ _ _ Es Hwf1) as Hwf2.
-  destruct (rc2 =? 0) eqn:E0.
-  - destruct (close_all y2 s) as [y3 e3] eqn:Eca. injection H as <- <- <- <-.
-    eapply close_all_WF; [exact Eca|exact Hwf2|].
+  destruct (close_all y2 s) as [y3 e3] eqn:Eca.
+  assert (Hwf3 : WF y3).
+  { eapply close_all_WF; [exact Eca|exact Hwf2|].
     (* the session is still closed after the send *)
     unfold sb_send in Es. rewrite sess_set_same in Es.
     destruct (se_broken se); [injection Es as <- <- <-; rewrite sess_set_same; exact Hcl|].
@@ -359,8 +359,8 @@ Proof.
     destruct (_ || _).
     + destruct (passive_close _ s) as [y4 e4] eqn:Epc. injection Es as <- <- <-.
       eapply passive_close_closed; eauto.
-    + injection Es as <- <- <-. rewrite sess_set_conns, sess_set_same. exact Hcl.
-  - destruct (rc2 =? 1); injection H as <- <- <- <-; exact Hwf2.
+    + injection Es as <- <- <-. rewrite sess_set_conns, sess_set_same. exact Hcl. }
+  destruct (rc2 =? 0); [|destruct (rc2 =? 1)]; injection H as <- <- <- <-; exact Hwf3.
 Qed.
 
 (* a closed session stays closed through the building blocks *)
@@ -843,10 +843,8 @@ Proof.
   destruct (hd_pick ch) as [c ch0].
   destruct (sb_send (set_sess y s se) s _ c) as [[y2 e2] rc2] eqn:Es.
   apply sb_send_other in Es. rewrite sess_set_other in Es.
-  destruct (rc2 =? 0).
-  - destruct (close_all y2 s) as [y3 e3] eqn:Eca. injection H as <- <- <- <-.
-    apply close_all_other in Eca. congruence.
-  - destruct (rc2 =? 1); injection H as <- <- <- <-; exact Es.
+  destruct (close_all y2 s) as [y3 e3] eqn:Eca. apply close_all_other in Eca.
+  destruct (rc2 =? 0); [|destruct (rc2 =? 1)]; injection H as <- <- <- <-; congruence.
 Qed.
 Lemma fire_timers_other fuel : forall y s ch y' ch' evs,
   fire_timers fuel y s ch = (y', ch', evs) -> sess y' (other s) = sess y (other s).
